@@ -31,3 +31,5 @@ mk("C01-instanceof-on-cyclic-prototype-chain-hangs", "C01.hang", "proto_cycle", 
 mk("C01-native-push-callback-extends-own-iteration", "C01.hang", "native_cb_grow", T_work=5000,
    params={"ng_method": "forEach", "ng_fn": "push"})
 mk("C01-pow-on-unbounded-integers", "C01.hang", "pow_tower", T_work=5000, params={"pt_base": "3", "pt_op": "** 3"})
+mk("C01-kept-array-method-uses-creators-clock", "C01.early", "kept_method", T_work=30000, params={"km_use": "each"})
+mk("C01-kept-regexp-method-uses-creators-clock", "C01.early", "kept_method", T_work=30000, params={"km_use": "rx_test"})
